@@ -33,6 +33,20 @@ TARGETS = [
     ("pams/order.py", "Cancel", "agent_id"),
     ("pams/order.py", "Cancel", "market_id"),
     ("pams/order.py", "Cancel", "check_system_acceptable"),
+    ("pams/logs/base.py", "OrderLog", "__init__"),
+    ("pams/logs/base.py", "CancelLog", "__init__"),
+    ("pams/logs/base.py", "ExecutionLog", "__init__"),
+    ("pams/logs/base.py", "ExpirationLog", "__init__"),
+    ("pams/order_book.py", "OrderBook", "add"),
+    ("pams/order_book.py", "OrderBook", "cancel"),
+    ("pams/order_book.py", "OrderBook", "_remove"),
+    ("pams/order_book.py", "OrderBook", "_set_time"),
+    ("pams/order_book.py", "OrderBook", "_check_expired_orders"),
+    ("pams/order_book.py", "OrderBook", "change_order_volume"),
+    ("pams/market.py", "Market", "get_best_buy_price"),
+    ("pams/market.py", "Market", "get_best_sell_price"),
+    ("pams/market.py", "Market", "_execute_orders"),
+    ("pams/market.py", "Market", "change_fundamental_price"),
     ("pams/order_book.py", "OrderBook", "get_best_order"),
     ("pams/order_book.py", "OrderBook", "get_best_price"),
     ("pams/order_book.py", "OrderBook", "__len__"),
@@ -164,6 +178,18 @@ def expr(e):
         return acc
     if isinstance(e, ast.IfExp):
         return "(.ife %s %s %s)" % (expr(e.test), expr(e.body), expr(e.orelse))
+    if isinstance(e, ast.Call) and isinstance(e.func, ast.Name) and e.func.id == "map" and len(e.args) == 2 \
+            and isinstance(e.args[0], ast.Lambda) and not e.keywords:
+        # `map(lambda x: E, xs)` (always consumed by `list(...)` in pams) is `[E for x in xs]`
+        lam = e.args[0]
+        la = lam.args
+        if la.vararg or la.kwarg or la.kwonlyargs or la.defaults or len(la.args) != 1:
+            raise Unsupported("lambda with other than one plain parameter")
+        return "(.comp %s (.name %s) %s [])" % (expr(lam.body), lstr(la.args[0].arg), expr(e.args[1]))
+    if isinstance(e, ast.Call) and isinstance(e.func, ast.Name) and e.func.id == "cast" and len(e.args) == 2 \
+            and not e.keywords:
+        # `typing.cast(T, x)` is `x`; the type expression is not evaluated
+        return "(.call (.name \"cast\") [(.cstr %s), %s] [] [])" % (lstr(ast.unparse(e.args[0])), expr(e.args[1]))
     if isinstance(e, ast.Call):
         for a in e.args:
             if isinstance(a, ast.Starred):
